@@ -67,7 +67,13 @@ def run_e1(chk, d, be=False):
     r = run(cmd)
     if r.returncode != 0:
         raise mclib.MachineryError('cannot build E1 driver: ' + r.stderr.decode()[-2000:])
-    out = run([exe], timeout=60).stdout.decode()
+    try:
+        out = run([exe], timeout=60).stdout.decode()
+    except subprocess.TimeoutExpired:
+        # every probe uses timeout 0 or wakes nobody: a driver that does not finish is a wait/notify that never returns (e.g. a mutex left locked)
+        chk.violation('emission|probe-sequence-hangs%s' % ('|be' if be else ''), {'kind': 'program', 'how_to_replay': 'python3 checks/c17.py quick (E1: mc/h_futex_e1.c)'},
+                      'the single-threaded probe sequence (waits with timeout 0, notifies without waiters) did not finish within 60 s: a call blocks forever')
+        return 0
     got = {}
     for ln in out.splitlines():
         w = ln.rsplit(' ', 1)
@@ -102,7 +108,12 @@ def run_e3(chk, d):
     r = run(cmd)
     if r.returncode != 0:
         raise mclib.MachineryError('cannot build E3 driver: ' + r.stderr.decode()[-2000:])
-    rr = run([exe], timeout=120)
+    try:
+        rr = run([exe], timeout=120)
+    except subprocess.TimeoutExpired:
+        chk.violation('deadline|driver-hangs', {'kind': 'program', 'how_to_replay': 'python3 checks/c17.py quick (E3: mc/h_futex_e3.c)'},
+                      'the deadline driver (every timed wait answers ETIMEDOUT at once) did not finish within 120 s: a call blocks forever')
+        return 0
     out = rr.stdout.decode()
     lines = [l.split() for l in out.splitlines() if l.startswith('E3 ')]
     if rr.returncode != 0 or len(lines) != 5 * 6 * 11:
